@@ -201,6 +201,56 @@ def interrupted_emission(chk, rng):
         pyprog.drop_module(mod)
 
 
+TSRC = "def f(x):\n    a = x + 1\n    b = a * 2\n    c = b - x\n    return (a, b, c)\n"
+
+
+def tooled_with_probes(chk, rng):
+    """a function tooled once and for all (@tooled / tooled.inplace), an overlay that overrides one of its variables,
+    and plain probes on the same or on OTHER variables, nested either way: the call behaves as the program with the
+    substituted binding, and the probes see the substituted values"""
+    import ptera
+    n = 12 if chk.tier == "quick" else 200
+    for i in range(n):
+        mod = pyprog.make_module(TSRC, "verif_c04_tooled")
+        how = rng.choice(["tooled", "inplace"])
+        f = ptera.tooled(mod.f) if how == "tooled" else ptera.tooled.inplace(mod.f)
+        env = {"f": f}
+        ov, val = rng.choice(["a", "b"]), rng.randrange(100, 200)
+        pv = rng.choice(["a", "b", "c"])
+        x = rng.randrange(0, 9)
+        tweak_outside = rng.random() < 0.5
+
+        def ref():
+            a = val if ov == "a" else x + 1
+            b = val if ov == "b" else a * 2
+            c = b - x
+            return (a, b, c), {"a": a, "b": b, "c": c}[pv]
+        want_ret, want_seen = ref()
+        seen = []
+        try:
+            tw = ptera.Overlay.tweaking({"f > %s" % ov: val})
+            pr = ptera.probing("f > %s" % pv, env=env)
+            pr.subscribe(lambda d: seen.append(d[pv]))
+            # the overlay refers to the function through the same environment
+            tw = ptera.Overlay.tweaking({ptera.selector.select("f > %s" % ov, env=env): val})
+            first, second = (tw, pr) if tweak_outside else (pr, tw)
+            with first:
+                with second:
+                    got = f(x)
+            after = f(x)
+        except Exception as e:
+            got, after = "failed: %s: %s" % (type(e).__name__, str(e)[:120]), None
+        chk.count(("tooled+probe", how, ov, pv, tweak_outside, x, val), nontrivial=ov != pv)
+        chk.dist("tooled function: overlay override + plain probe on %s variable" % ("the same" if ov == pv else "another"))
+        if got != want_ret or seen != [want_seen] or after != (x + 1, (x + 1) * 2, (x + 1) * 2 - x):
+            chk.violation("oracle", "%s function, tweaking f > %s = %d %s probing f > %s: f(%d) = %r (substituted program: %r), "
+                          "the probe saw %r (expected [%r]), afterwards f(%d) = %r" % (
+                              how, ov, val, "around" if tweak_outside else "inside", pv, x, got, want_ret, seen, want_seen, x, after),
+                          {"source": TSRC, "tooling": how, "override": [ov, val], "probe": pv,
+                           "overlay_outside": tweak_outside, "arg": x, "got": str(got), "want": str(want_ret)})
+        pyprog.drop_module(mod)
+
+
 def run(chk):
     m2corr.ast_leg(chk, 80 if chk.tier == "quick" else 1500)
     m2corr.exec_leg(chk, 100 if chk.tier == "quick" else 2000, probes=False)
@@ -236,6 +286,7 @@ def run(chk):
             chk.sample({"source": src, "twin": pylite.render(fn, twin=True, subst=(names[0], "SUBST"))})
     closures(chk, stats)
     interrupted_emission(chk, rng)
+    tooled_with_probes(chk, rng)
     successive_probes(chk, rng)
     chk.cov["oracle"]["twin"] = stats
 
